@@ -8,10 +8,10 @@ RULE = ("self-describing scripts judged against a Python dict printed in UTF-8-b
         "(size <= 3 quick / <= 5 thorough, plus a sample of size 4 resp. 6) of the keys a, A, b, '', 'a b', 'é', '_', '0' inserted in "
         "every order (exhaustive), by `.k`/`[\"k\"]` assignment, by literal or by repeated spread, then print / for / == "
         "against the same pairs written in another order. Stream `hist`: random histories of <= 5 / <= 7 operations out of "
-        "{insert, overwrite, op-assign, read, copy, nested write, spread (4 forms), duplicate-key literal, shorthand, computed "
-        "name, traced literal (evaluation order), iterate (2 forms), print, == (equal / unequal variant)} with `.k` and "
+        "{insert, overwrite, op-assign, read, copy, nested write, spread (4 forms), spread-only copy, duplicate-key literal, shorthand, computed "
+        "name, traced literal (evaluation order), iterate (3 forms), print, == (equal / unequal variant)} with `.k` and "
         "`[\"k\"]` chosen at random wherever k is an identifier, plus the predicted errors {read missing, op-assign missing, "
-        "non-string name, spread of a non-object}. non-trivial = distinct (operation-kind sequence, outcome class)")
+        "non-string name, spread of a non-object}; keys on the read and write path are also written as computed expressions (variable, concatenation, call, interpolated literal); a spread-only literal `{o..}` is mutated and compared with `o` by `===` and by content; `for kv in o` pairs are kept in an outer list and printed after the loop. Stream `for-kept`: the same for lists and strings. non-trivial = distinct (operation-kind sequence, outcome class)")
 ASSUMPTIONS = ["the key `_` is exercised as a property name in literals, reads and writes, but never as the key of a "
                "destructuring pair (known quirk K3)",
                "values stored in the objects are null, booleans, small integers, short strings, flat lists and one-level objects"]
@@ -46,7 +46,17 @@ def rand_val(rng, depth=0):
 
 
 def observe(sc, rng, o, name="o", how=None):
-    how = how if how is not None else rng.randrange(3)
+    how = how if how is not None else rng.randrange(4)
+    if how == 3:
+        # the pair handed to the body is a value of its own: kept pairs stay what they were when they were visited
+        n = getattr(sc, "nacc", 0) + 1
+        sc.nacc = n
+        sc.stmt(f"acc{n} := []")
+        sc.stmt(f"for kv in {name} {{ acc{n} += [kv]; }}")
+        sc.stmt(f"print(acc{n})")
+        sc.expect([[k, o[k]] for k in sorted(o, key=L.key_order)])
+        sc.tags.append("for-kept")
+        return
     if how == 0:
         sc.stmt(f"print({name})")
         sc.expect(o)
@@ -93,6 +103,7 @@ def perm_scripts(rng, sizes, sampled_size, sample_n):
             o = dict(vals)
             observe(sc, rng, o, how=0)
             observe(sc, rng, o, how=1)
+            observe(sc, rng, o, how=3)
             other = list(reversed(pi))
             sc.stmt("p := " + L.lit({k: vals[k] for k in other}))
             sc.stmt("print(o == p)")
@@ -115,6 +126,7 @@ class Hist:
         self.o = {}
         self.declared = set()
         self.tracer = False
+        self.idfn = False
         self.nops = nops
         self.tmp = 0
 
@@ -126,6 +138,32 @@ class Hist:
             free = [k for k in KEYS if k not in self.o]
             return rng.choice(free) if free else None
         return rng.choice(KEYS)
+
+    def acc(self, k, obj="o"):
+        """an access expression for key k: `.k`, `["k"]`, or `[e]` with e a computed key expression (variable,
+        concatenation, call, interpolated literal), which must mean the same property on the read and the write path"""
+        rng, sc = self.rng, self.sc
+        if rng.random() >= 0.3:
+            return access(rng, obj, k)
+        kind = rng.randrange(4)
+        self.tmp += 1
+        if kind == 0:
+            sc.stmt(f"kv{self.tmp} := {L.str_lit(k)}")
+            return f"{obj}[kv{self.tmp}]", "cvar"
+        if kind == 1:
+            i = rng.randrange(len(k) + 1)
+            return f"{obj}[{L.str_lit(k[:i])} + {L.str_lit(k[i:])}]", "cconcat"
+        if kind == 2:
+            if not self.idfn:
+                sc.stmt("fn idk(x) { return x; }")
+                self.idfn = True
+            return f"{obj}[idk({L.str_lit(k)})]", "ccall"
+        # interpolated literal: an ASCII prefix written out, the rest through a slot
+        i = 0
+        while i < len(k) and ord(k[i]) < 128 and rng.random() < 0.6:
+            i += 1
+        sc.stmt(f"ks{self.tmp} := {L.str_lit(k[i:])}")
+        return f"{obj}[${L.str_lit(k[:i])[:-1]}${{ks{self.tmp}}}\"]", "cinterp"
 
     def need_tracer(self):
         if not self.tracer:
@@ -145,7 +183,7 @@ class Hist:
         if c < 16:                                   # insert / overwrite
             k = self.key()
             v = rand_val(rng)
-            a, form = access(rng, "o", k)
+            a, form = self.acc(k)
             sc.stmt(f"{a} = {L.lit(v)}")
             sc.tags.append(("overwrite-" if k in o else "insert-") + form)
             o[k] = v
@@ -161,7 +199,7 @@ class Hist:
             k = self.key(present=rng.random() < 0.8)
             if k is None:
                 return
-            a, form = access(rng, "o", k)
+            a, form = self.acc(k)
             if k not in o:
                 sc.fail(f"{a} += 1", f"op-assign on missing key {k!r}")
                 sc.tags.append("opassign-missing-" + form)
@@ -193,7 +231,7 @@ class Hist:
             k = self.key(present=rng.random() < 0.8)
             if k is None:
                 return
-            a, form = access(rng, "o", k)
+            a, form = self.acc(k)
             if k not in o:
                 sc.fail(f"print({a})", f"read of missing key {k!r}")
                 sc.tags.append("read-missing-" + form)
@@ -206,8 +244,8 @@ class Hist:
             k2 = self.key()
             if k is None:
                 return
-            a1, f1 = access(rng, "o", k)
-            a2, f2 = access(rng, "o", k2)
+            a1, f1 = self.acc(k)
+            a2, f2 = self.acc(k2)
             sc.stmt(f"{a2} = {a1}")
             o[k2] = o[k]
             sc.tags.append("copy")
@@ -216,7 +254,7 @@ class Hist:
             if not cands:
                 return
             k = rng.choice(sorted(cands))
-            a, form = access(rng, "o", k)
+            a, form = self.acc(k)
             if isinstance(o[k], list):
                 sc.stmt(f"{a}[0] = 8")
                 o[k][0] = 8
@@ -312,6 +350,30 @@ class Hist:
             sc.fail(f"o = {{o.., q{self.tmp}..}}", f"spread of the non-object {bad} in an object literal")
             sc.tags.append("spread-non-object")
             return
+        elif c < 85:                                 # a literal that is exactly one spread is a *new* object
+            self.tmp += 1
+            cn = f"c{self.tmp}"
+            sc.stmt(f"{cn} := {{o..}}")
+            copy = dict(o)
+            r = rng.randrange(3)
+            k = self.key()
+            a, form = access(rng, cn, k)
+            if r == 0 or k not in copy or not isinstance(copy[k], int) or isinstance(copy[k], bool):
+                sc.stmt(f"{a} = 77")
+                copy[k] = 77
+            else:
+                sc.stmt(f"{a} += 5")
+                copy[k] = copy[k] + 5
+            sc.stmt(f"print({cn} === o)")
+            sc.expect(False)
+            sc.stmt("print(o)")
+            sc.expect(o)
+            sc.stmt(f"print({cn})")
+            sc.expect(copy)
+            if rng.random() < 0.5:                   # go on with the copy
+                sc.stmt(f"o = {cn}")
+                self.o = copy
+            sc.tags.append("spread-only-copy")
         elif c < 91:                                 # observe
             observe(sc, rng, o)
         else:                                        # ==
@@ -365,6 +427,38 @@ def hist_scripts(rng, n, maxops):
     return out
 
 
+def for_kept_scripts():
+    """the [key, value] pair of every iteration is a list of its own (objects, lists, strings)"""
+    out = []
+    its = [({"b": 1, "a": [2], "": 3}, [["", 3], ["a", [2]], ["b", 1]]), ({}, []), ({"k": {"x": 1}}, [["k", {"x": 1}]]),
+           ([7, 8, 9], [[0, 7], [1, 8], [2, 9]]), ([[1]], [[0, [1]]]), ("xyz", [[0, "x"], [1, "y"], [2, "z"]]), ("", [])]
+    for it, pairs in its:
+        for form in range(3):
+            sc = L.Script()
+            sc.stmt(f"it := {L.lit(it)}")
+            sc.stmt("acc := []")
+            if form == 0:
+                sc.stmt("for kv in it { acc += [kv]; }")
+            elif form == 1:
+                sc.stmt("for kv in it { acc = [acc.., kv]; }")
+            else:
+                sc.stmt("hold := {\"last\": null, \"all\": []}")
+                sc.stmt("for kv in it { hold.all += [kv]; hold.last = kv; acc += [hold.last]; }")
+            sc.stmt("print(acc)")
+            sc.expect(pairs)
+            sc.stmt(f"print(acc == {L.lit(pairs)})")
+            sc.expect(True)
+            if len(pairs) >= 2:
+                sc.stmt("print(acc[0] === acc[1])")
+                sc.expect(False)
+                sc.stmt("acc[0][1] = \"w\"")
+                sc.stmt("print(acc[1])")
+                sc.expect(pairs[1])
+            sc.tags = ["for-kept", type(it).__name__, form]
+            out.append(sc.source({"tags": sc.tags}))
+    return out
+
+
 def classify(src, r):
     p = L.prediction(src) or {}
     return (tuple(p.get("tags", []))[:8], L.err_class(r))
@@ -381,6 +475,7 @@ def run(ctx, model_ok):
         perms, groups = perm_scripts(rng, [0, 1, 2, 3], 4, 25)
         nhist, maxops = 30000, 5
     ctx.cov["exhaustive"] = True
+    L.run_stream(ctx, "for-kept", for_kept_scripts(), model_ok, classify=classify)
     impl = L.run_stream(ctx, "perms", perms, model_ok, classify=lambda s, r: ("perm", s.split("\n")[1][:40], r["status"]))
     # metamorphic leg: within a group (same pairs, all insertion orders) the output is one and the same text
     res = dict(zip(list(dict.fromkeys(perms)), impl))
